@@ -397,7 +397,12 @@ func (s *Lexer) getNextToken() (*Token, error) {
 			break
 		} else if current_state == SBLOCKCOMMENTENDEND || current_state == SBLOCKCOMMENTSTARTEND {
 			buf.WriteRune(ch)
-			current_state = SBLOCKCOMMENT
+			if ch == ')' {
+				// ")-)" : this parenthesis may itself start the terminator
+				current_state = SBLOCKCOMMENTSTARTEND
+			} else {
+				current_state = SBLOCKCOMMENT
+			}
 		} else if ch == '\\' && current_state == SSTRING_DOUBLE {
 			current_state = SSTRING_D_ESCAPE
 		} else if current_state == SSTRING_DOUBLE {
